@@ -244,6 +244,27 @@ func runReplay(bin, path string, v *Violation) string {
 			return res
 		}
 	}
+	// the failing condition may depend on how a decimal input is spelled, which the encoding
+	// does not fix (the parser is uninterpreted): try value-preserving respellings
+	orig, _ := os.ReadFile(path)
+	for _, name := range v.DecIn {
+		cur, ok := v.Inputs[name]
+		if !ok || !strings.HasPrefix(cur, "s:") {
+			continue
+		}
+		for _, alt := range decVariants(strings.TrimPrefix(cur, "s:")) {
+			v.Inputs[name] = "s:" + alt
+			b, _ := json.MarshalIndent(v, "", " ")
+			os.WriteFile(path, b, 0o644)
+			if r := runReplayOnce(bin, path, v); r == "reproduced" {
+				return r
+			}
+		}
+		v.Inputs[name] = cur
+	}
+	if orig != nil {
+		os.WriteFile(path, orig, 0o644)
+	}
 	return res
 }
 
@@ -265,7 +286,7 @@ func runReplayOnce(bin, path string, v *Violation) string {
 		// a codec-confusion candidate ends the symbolic path where the bytes stop being modelled:
 		// it is confirmed by whatever the real run does with those bytes — a panic, or any
 		// assertion of the property under check failing
-		if v.Kind == "codec-confusion" {
+		if v.Kind == "codec-confusion" || v.Kind == "unmodelled" {
 			if strings.HasPrefix(line, "REPLAY-PANIC") {
 				return "reproduced"
 			}
